@@ -24,7 +24,8 @@ pub fn post_lookup<const N: usize, const N2: usize>(m: &M, h: &[u64; K], q: u8, 
     if !want_n2 {
         assert!(b == N);
         let post = snap::<E, _, N>(raw);
-        assert!(inv::<N>(&post, InvKind::Full, h, true, false));
+        // without growth the free-slot accounting stays exact (capacity() stays honest)
+        assert!(inv::<N>(&post, InvKind::Full, h, true, true));
         post.lookup(q)
     } else {
         assert!(b == N2);
